@@ -80,7 +80,7 @@ check('C08', progs=[('chk_C08', [1, 2])], level='exploration', extra=ENG,
 check('C09', progs=[('chk_C09', [1])], level='exploration',
       floors={'api_queries_between_service_calls': 100000, 'lines': 100000, 'lines_touching_a_disabled_command': 20000, 'command_flag_flips': 10000, 'group_flag_flips': 3000, 'lines_executed': 20000, 'list_lines_checked': 10000, 'lines_with_terminal_lore_sequences': 10000, 'handler_chains': 5000, 'empty_response_parts': 1000, 'commands_disabled_right_after_being_served': 20000, 'groups_starting_where_the_previous_array_ends': 5000})
 check('C10', progs=[('chk_C10', [1, 2])], level='exploration',
-      floors={'overflow_cells': 3000, 'sequences_with_a_bystander_event': 5000, 'automatic_texts_one_or_two_bytes_too_long': 1000, 'sequences': 20000, 'command_lists': 500, 'handler_invocations_checked': 50000, 'return_values_outside_the_enumeration': 10000, 'release_requests_from_a_handler_of_a_command_that_is_not_held': 10000, 'service_calls_made_while_the_cell_is_held': 1000})
+      floors={'overflow_cells': 3000, 'sequences_with_a_bystander_event': 5000, 'automatic_texts_one_or_two_bytes_too_long': 1000, 'sequences': 20000, 'command_lists': 500, 'handler_invocations_checked': 50000, 'return_values_outside_the_enumeration': 10000, 'release_requests_from_a_handler_of_a_command_that_is_not_held': 10000, 'service_calls_made_while_the_cell_is_held': 1000, 'read_cells_on_write_only_variables': 1000})
 check('C11', fuzz=True, progs=[('chk_C11', [1, 2, 3, 8])], level='exploration', extra=ENG,
       floors={'histories_with_contention': 500, 'contended_steps_event_holds_line': 1000, 'contended_steps_cmd_holds_line': 1000, 'event_units': 1000, 'cmd_data_units': 500, 'list_units': 200, 'write_refusals': 10000})
 check('C12', progs=[('chk_C12', [1, 2])], level='exploration', extra=ENG,
